@@ -957,3 +957,259 @@ Proof.
   - unfold chk_special in C. apply Forall_forall. intros d Hd. apply (proj1 (forallb_forall _ _) C d Hd).
   - unfold chk_vrecords in C3. apply Forall_forall. intros d Hd. apply (proj1 (forallb_forall _ _) C3 d Hd).
 Qed.
+
+(* ================================================================================================== *)
+(** * 6. HTPsync at the level of the serializer: a directory written block by block re-parses to itself *)
+
+Lemma sub_intro : forall img off len, 0 <= off -> 0 <= len -> off + len <= zlen img ->
+  sub img off len = Some (firstn (Z.to_nat len) (skipn (Z.to_nat off) img)).
+Proof.
+  intros img off len A B C. unfold sub.
+  destruct (off <? 0) eqn:E1; [apply Z.ltb_lt in E1; lia|].
+  destruct (len <? 0) eqn:E2; [apply Z.ltb_lt in E2; lia|].
+  destruct (zlen img <? off + len) eqn:E3; [apply Z.ltb_lt in E3; lia|]. reflexivity.
+Qed.
+
+Lemma skipn_skipn : forall {A} (x y : nat) (l : list A), skipn x (skipn y l) = skipn (y + x) l.
+Proof.
+  intros A x y. revert x. induction y; intros x l; [reflexivity|].
+  destruct l; [rewrite !skipn_nil; reflexivity|]. simpl. apply IHy.
+Qed.
+
+Lemma firstn_app_exact : forall {A} (a b : list A), firstn (List.length a) (a ++ b) = a.
+Proof. intros. rewrite firstn_app, Nat.sub_diag, firstn_all. simpl. apply app_nil_r. Qed.
+
+Lemma write_at_length : forall img off bytes, 0 <= off -> off + zlen bytes <= zlen img ->
+  List.length (write_at img off bytes) = List.length img.
+Proof.
+  intros img off bytes A B. unfold write_at, zlen in *.
+  rewrite !app_length, firstn_length, skipn_length. lia.
+Qed.
+
+Lemma sub_write_same : forall img off bytes, 0 <= off -> off + zlen bytes <= zlen img ->
+  sub (write_at img off bytes) off (zlen bytes) = Some bytes.
+Proof.
+  intros img off bytes A B.
+  rewrite sub_intro; try assumption; [| apply zlen_nonneg | unfold zlen at 2; rewrite write_at_length by assumption; exact B].
+  f_equal. unfold write_at.
+  assert (List.length (firstn (Z.to_nat off) img) = Z.to_nat off) as L by (rewrite firstn_length; unfold zlen in B; lia).
+  rewrite <- L at 1. rewrite skipn_exact. unfold zlen. rewrite Nat2Z.id. apply firstn_app_exact.
+Qed.
+
+Lemma sub_write_other : forall img off bytes o n, 0 <= off -> off + zlen bytes <= zlen img ->
+  0 <= o -> 0 <= n -> o + n <= zlen img -> (o + n <= off \/ off + zlen bytes <= o) ->
+  sub (write_at img off bytes) o n = sub img o n.
+Proof.
+  intros img off bytes o n A B C D E F.
+  rewrite !sub_intro; try assumption; [| unfold zlen at 1; rewrite write_at_length by assumption; exact E].
+  f_equal. unfold write_at. unfold zlen in *.
+  assert (List.length (firstn (Z.to_nat off) img) = Z.to_nat off) as L by (rewrite firstn_length; lia).
+  destruct F as [F|F].
+  - (* the region lies before the write *)
+    rewrite skipn_app, firstn_app, L.
+    replace (Z.to_nat o - Z.to_nat off)%nat with 0%nat by lia.
+    rewrite skipn_length, L.
+    replace (Z.to_nat n - (Z.to_nat off - Z.to_nat o))%nat with 0%nat by lia. cbn [firstn skipn]. rewrite app_nil_r.
+    rewrite <- (firstn_skipn (Z.to_nat off) img) at 2. rewrite skipn_app, firstn_app, L.
+    replace (Z.to_nat o - Z.to_nat off)%nat with 0%nat by lia. rewrite skipn_length, L.
+    replace (Z.to_nat n - (Z.to_nat off - Z.to_nat o))%nat with 0%nat by lia. cbn [firstn skipn]. rewrite app_nil_r.
+    reflexivity.
+  - (* the region lies after the write *)
+    rewrite app_assoc, skipn_app.
+    assert (List.length (firstn (Z.to_nat off) img ++ bytes) = (Z.to_nat off + List.length bytes)%nat) as L2
+      by (rewrite app_length, L; reflexivity).
+    rewrite L2. rewrite skipn_all2 by lia. cbn [app].
+    rewrite skipn_skipn. f_equal. f_equal. lia.
+Qed.
+
+Definition blk_ok (b : ddblock) : Prop :=
+  i16 (blk_ndds b) /\ 0 < blk_ndds b /\ i32 (blk_next b) /\ zlen (blk_dds b) = blk_ndds b /\ Forall dd_ok (blk_dds b).
+
+Lemma block_encode_zlen : forall b, blk_ok b -> zlen (block_encode b) = snd (blk_extent b).
+Proof.
+  intros b (_ & _ & _ & L & _). rewrite block_encode_eq, !zlen_app, flat_dd_len, L.
+  unfold zlen. rewrite enc_len_i16, enc_len_i32. unfold blk_extent, blkhdr_size, dd_size. cbn [snd]. lia.
+Qed.
+
+Lemma sub_app_split : forall img off a b, sub img off (zlen (a ++ b)) = Some (a ++ b) ->
+  sub img off (zlen a) = Some a /\ sub img (off + zlen a) (zlen b) = Some b.
+Proof.
+  intros img off a b H. apply sub_bounds in H. destruct H as (A & _ & C & E).
+  rewrite zlen_app in C. pose proof (zlen_nonneg a). pose proof (zlen_nonneg b).
+  set (X := skipn (Z.to_nat off) img) in *.
+  assert (firstn (List.length a + List.length b) X = a ++ b) as E'.
+  { rewrite E. f_equal. unfold zlen. rewrite app_length. lia. }
+  split.
+  - rewrite sub_intro by lia. f_equal. fold X. unfold zlen. rewrite Nat2Z.id.
+    rewrite <- (firstn_app_exact a b) at 2. rewrite <- E'. rewrite firstn_firstn. f_equal. lia.
+  - rewrite sub_intro by lia. f_equal.
+    replace (Z.to_nat (off + zlen a)) with (List.length a + Z.to_nat off)%nat by (unfold zlen; lia).
+    rewrite Nat.add_comm, <- skipn_skipn. fold X. unfold zlen. rewrite Nat2Z.id.
+    rewrite <- (firstn_skipn (List.length a + List.length b) X), E'.
+    rewrite <- app_assoc, skipn_exact. apply firstn_app_exact.
+Qed.
+
+(** a block whose bytes are in the image is what the specification's block parser reads there *)
+Lemma p_block_of_bytes : forall img b, blk_ok b ->
+  sub img (blk_off b) (zlen (block_encode b)) = Some (block_encode b) -> p_block img (blk_off b) = Some b.
+Proof.
+  intros img b Hok H. pose proof Hok as (H1 & H2 & H3 & H4 & H5).
+  rewrite block_encode_eq in H.
+  replace (I16 (blk_ndds b) ++ I32 (blk_next b) ++ flat_map dd_encode (blk_dds b))
+    with ((I16 (blk_ndds b) ++ I32 (blk_next b)) ++ flat_map dd_encode (blk_dds b)) in H by (rewrite <- app_assoc; reflexivity).
+  apply sub_app_split in H. destruct H as [Ha Hb].
+  assert (zlen (I16 (blk_ndds b) ++ I32 (blk_next b)) = blkhdr_size) as Z6
+    by (unfold zlen; rewrite app_length, enc_len_i16, enc_len_i32; reflexivity).
+  rewrite Z6 in Ha, Hb. rewrite flat_dd_len, H4 in Hb.
+  unfold p_block. rewrite Ha. rewrite <- (app_nil_r (I16 (blk_ndds b) ++ I32 (blk_next b))), <- app_assoc.
+  step. step. destruct (blk_ndds b <=? 0) eqn:E; [apply Z.leb_le in E; lia|].
+  replace (blk_ndds b * dd_size) with (12 * blk_ndds b) by (unfold dd_size; lia). rewrite Hb.
+  rewrite <- (app_nil_r (flat_map dd_encode (blk_dds b))).
+  rewrite (p_rep_enc_n p_dd dd_encode dd_ok) by (auto using p_dd_enc; unfold zlen in H4; lia).
+  destruct b; reflexivity.
+Qed.
+
+Definition inside (img : image) (b : ddblock) : Prop := 4 <= blk_off b /\ blk_off b + snd (blk_extent b) <= zlen img.
+
+Lemma inside_write : forall img a bl, blk_ok a -> inside img a -> Forall (inside img) bl ->
+  List.length (write_at img (blk_off a) (block_encode a)) = List.length img /\
+  Forall (inside (write_at img (blk_off a) (block_encode a))) bl.
+Proof.
+  intros img a bl Oa [I1 I2] Ib.
+  assert (List.length (write_at img (blk_off a) (block_encode a)) = List.length img) as L
+    by (apply write_at_length; [lia | rewrite block_encode_zlen by assumption; lia]).
+  split; [exact L|]. eapply Forall_impl; [|exact Ib].
+  intros x [X1 X2]. split; [assumption | unfold zlen in *; rewrite L; assumption].
+Qed.
+
+Lemma sync_blocks_length : forall bl img, Forall blk_ok bl -> Forall (inside img) bl ->
+  List.length (sync_blocks img bl) = List.length img.
+Proof.
+  induction bl as [|a bl IH]; intros img Hok Hin; [reflexivity|].
+  destruct (inside_write img a bl (Forall_inv Hok) (Forall_inv Hin) (Forall_inv_tail Hin)) as [L Hin'].
+  unfold sync_blocks in *. cbn [fold_left]. rewrite IH; [exact L | exact (Forall_inv_tail Hok) | exact Hin'].
+Qed.
+
+(** a region apart from every block is untouched by the sync *)
+Lemma sync_blocks_frame : forall bl img o n, Forall blk_ok bl -> Forall (inside img) bl ->
+  0 <= o -> 0 <= n -> o + n <= zlen img -> Forall (fun b => apart (o, n) (blk_extent b)) bl ->
+  sub (sync_blocks img bl) o n = sub img o n.
+Proof.
+  induction bl as [|a bl IH]; intros img o n Hok Hin Ho Hn Hb Hap; [reflexivity|].
+  pose proof (Forall_inv Hok) as Oa. pose proof (Forall_inv Hin) as Ia. pose proof (Forall_inv Hap) as Aa.
+  destruct (inside_write img a bl Oa Ia (Forall_inv_tail Hin)) as [L Hin']. destruct Ia as [I1 I2].
+  unfold sync_blocks in *. cbn [fold_left].
+  rewrite IH; [| exact (Forall_inv_tail Hok) | exact Hin' | assumption | assumption
+               | unfold zlen in *; rewrite L; assumption | exact (Forall_inv_tail Hap)].
+  apply sub_write_other; try assumption; try lia.
+  - rewrite block_encode_zlen by assumption; lia.
+  - rewrite block_encode_zlen by assumption. unfold apart in Aa. cbn [fst snd] in Aa.
+    unfold blk_extent in *. cbn [fst snd] in *. lia.
+Qed.
+
+Lemma apart_sym : forall a b, apart a b -> apart b a.
+Proof. unfold apart. intros. lia. Qed.
+
+(** after the sync every block's region holds that block's encoding *)
+Lemma sync_blocks_region : forall bl img b, Forall blk_ok bl -> Forall (inside img) bl ->
+  ForallOrdPairs apart (map blk_extent bl) -> In b bl ->
+  sub (sync_blocks img bl) (blk_off b) (zlen (block_encode b)) = Some (block_encode b).
+Proof.
+  induction bl as [|a bl IH]; intros img b Hok Hin Hap Hb; [destruct Hb|].
+  pose proof (Forall_inv Hok) as Oa. pose proof (Forall_inv Hin) as Ia.
+  destruct (inside_write img a bl Oa Ia (Forall_inv_tail Hin)) as [L Hin']. destruct Ia as [I1 I2].
+  cbn [map] in Hap. inversion Hap as [|x l Fa Fb]; subst.
+  unfold sync_blocks in *. cbn [fold_left]. destruct Hb as [Hb|Hb].
+  - subst b.
+    fold (sync_blocks (write_at img (blk_off a) (block_encode a)) bl).
+    rewrite sync_blocks_frame; [| exact (Forall_inv_tail Hok) | exact Hin' | lia | apply zlen_nonneg
+                                | unfold zlen at 2; rewrite L; rewrite block_encode_zlen by assumption; exact I2 |].
+    + apply sub_write_same; [lia | rewrite block_encode_zlen by assumption; lia].
+    + apply Forall_forall. intros x Hx. rewrite block_encode_zlen by assumption.
+      eapply Forall_forall in Fa; [|apply in_map; exact Hx].
+      unfold apart, blk_extent in *. cbn [fst snd] in *. lia.
+  - apply IH; [exact (Forall_inv_tail Hok) | exact Hin' | exact Fb | exact Hb].
+Qed.
+
+(** the chain of "next" pointers of a directory laid out in memory *)
+Inductive linked_from : Z -> list ddblock -> Prop :=
+| lf_last : forall b, blk_next b = 0 -> linked_from (blk_off b) [b]
+| lf_cons : forall b rest, blk_next b <> 0 -> linked_from (blk_next b) rest -> linked_from (blk_off b) (b :: rest).
+
+Lemma walk_of_blocks : forall img bl off, linked_from off bl ->
+  (forall b, In b bl -> p_block img (blk_off b) = Some b) ->
+  forall fuel, (List.length bl <= fuel)%nat -> walk fuel img off = Some bl.
+Proof.
+  intros img bl off H. induction H; intros P fuel Hf.
+  - destruct fuel; [simpl in Hf; lia|]. cbn [walk]. rewrite (P b (or_introl eq_refl)).
+    rewrite H, Z.eqb_refl. reflexivity.
+  - destruct fuel; [simpl in Hf; lia|]. cbn [walk]. rewrite (P b (or_introl eq_refl)).
+    destruct (blk_next b =? 0) eqn:E; [apply Z.eqb_eq in E; contradiction|].
+    rewrite IHlinked_from; [reflexivity | intros x Hx; apply P; right; exact Hx | simpl in Hf; lia].
+Qed.
+
+Theorem sync_reparses : forall img bl,
+  4 <= zlen img -> Forall blk_ok bl -> Forall (inside img) bl ->
+  ForallOrdPairs apart (map blk_extent bl) -> linked_from 4 bl -> (List.length bl <= List.length img)%nat ->
+  parse_file (sync_file img bl) = Some bl.
+Proof.
+  intros img bl Hlen Hok Hin Hap Hlf Hn. unfold sync_file, parse_file.
+  set (img0 := write_at img 0 HDFMAGIC).
+  assert (List.length img0 = List.length img) as L0 by (apply write_at_length; [lia | exact Hlen]).
+  assert (Forall (inside img0) bl) as Hin0.
+  { eapply Forall_impl; [|exact Hin]. intros x [X1 X2]. split; [assumption | unfold zlen in *; rewrite L0; assumption]. }
+  assert (sub (sync_blocks img0 bl) 0 4 = Some magic) as M.
+  { rewrite sync_blocks_frame; try assumption; try lia; [| unfold zlen in *; rewrite L0; lia |].
+    - apply (sub_write_same img 0 HDFMAGIC); [lia | exact Hlen].
+    - apply Forall_forall. intros x Hx. eapply Forall_forall in Hin; [|exact Hx]. destruct Hin as [X1 X2].
+      unfold apart, blk_extent. cbn [fst snd]. lia. }
+  rewrite M. change (forallb (fun p => fst p =? snd p) (combine magic magic)) with true. cbv iota.
+  apply walk_of_blocks; [exact Hlf | | rewrite sync_blocks_length by assumption; rewrite L0; exact Hn].
+  intros b Hb. apply p_block_of_bytes; [eapply Forall_forall in Hok; eauto|].
+  apply sync_blocks_region; assumption.
+Qed.
+
+(** there are never more blocks than bytes: the fuel [length img] of [parse_file] always suffices *)
+Lemma blocks_fit : forall img bl, Forall blk_ok bl -> Forall (inside img) bl ->
+  ForallOrdPairs apart (map blk_extent bl) -> (List.length bl <= List.length img)%nat.
+Proof.
+  intros img bl Hok Hin Hap.
+  assert (NoDup (map blk_off bl)) as ND.
+  { apply apart_distinct_offsets; [|exact Hap]. eapply Forall_impl; [|exact Hok]. intros a (_ & P & _). exact P. }
+  assert (NoDup (map (fun b => Z.to_nat (blk_off b)) bl)) as ND'.
+  { clear Hap Hok. induction bl as [|a bl IH]; [constructor|]. cbn [map] in *. inversion ND; subst.
+    constructor; [|apply IH; [exact (Forall_inv_tail Hin) | assumption]].
+    intro Hx. apply in_map_iff in Hx. destruct Hx as [b [E Hb]]. apply H1. apply in_map_iff. exists b. split; [|exact Hb].
+    pose proof (Forall_inv Hin) as [A1 _]. eapply Forall_forall in Hin; [|right; exact Hb]. destruct Hin as [B1 _]. lia. }
+  rewrite <- (map_length (fun b => Z.to_nat (blk_off b)) bl), <- (seq_length (List.length img) 0).
+  apply NoDup_incl_length; [exact ND'|].
+  intros x Hx. apply in_map_iff in Hx. destruct Hx as [b [E Hb]]. subst x. apply in_seq.
+  eapply Forall_forall in Hin; [|exact Hb]. eapply Forall_forall in Hok; [|exact Hb].
+  destruct Hin as [A1 A2]. destruct Hok as (_ & P & _).
+  unfold blk_extent, blkhdr_size, dd_size, zlen in A2. cbn [snd] in A2. lia.
+Qed.
+
+Theorem sync_wellformed : forall img bl,
+  4 <= zlen img -> Forall blk_ok bl -> Forall (inside img) bl ->
+  ForallOrdPairs apart (map blk_extent bl) -> linked_from 4 bl ->
+  parse_file (sync_file img bl) = Some bl.
+Proof.
+  intros. apply sync_reparses; try assumption. eapply blocks_fit; eassumption.
+Qed.
+
+(* ================================================================================================== *)
+(** * 7. Space is handed out strictly at the end of the file: allocations never overlap *)
+
+Lemma alloc_all_spec : forall sizes f_end, Forall (fun n => 0 <= n) sizes ->
+  Forall (fun e => f_end <= fst e /\ 0 <= snd e) (alloc_all f_end sizes) /\
+  ForallOrdPairs apart (alloc_all f_end sizes) /\
+  map snd (alloc_all f_end sizes) = sizes.
+Proof.
+  induction sizes as [|n t IH]; intros f_end H; cbn [alloc_all getdiskblock].
+  - repeat split; constructor.
+  - pose proof (Forall_inv H) as Hn. cbv beta in Hn. destruct (IH (f_end + n) (Forall_inv_tail H)) as (A & B & C).
+    split; [|split].
+    + constructor; [cbn [fst snd]; lia|]. eapply Forall_impl; [|exact A]. intros e [E1 E2]. cbv beta. lia.
+    + constructor; [|exact B]. eapply Forall_impl; [|exact A]. intros e [E1 E2]. unfold apart. cbn [fst snd]. lia.
+    + cbn [map snd]. rewrite C. reflexivity.
+Qed.
